@@ -672,7 +672,7 @@ class SimplifyMapper(LokiIdentityMapper):
     def map_comparison(self, expr, *args, **kwargs):
         def get_constant_value(expr):
             if is_minus_prefix(expr):
-                return -1 * strip_minus_prefix(expr).value
+                return -1 * get_constant_value(strip_minus_prefix(expr))
             return expr.value
 
         left = self.rec(expr.left, *args, **kwargs)
